@@ -164,6 +164,11 @@ def worker(ctx):
             if i % 3 == 0:
                 w.wide = 0.08
             text = w.document(doc)
+            if i % 4 == 1:
+                # line terminators inside and between values read as a single newline whatever their style
+                from .C08 import restyle
+                text = restyle(text, ('crlf', 'cr', 'mix')[(i // 4) % 3], rng)
+                label += ':' + ('crlf', 'cr', 'mix')[(i // 4) % 3]
         info = dict(index=i, label=label, version=version)
         ok = check_document(ctx, L, label, doc, text, version, info)
         if ok:
